@@ -124,6 +124,10 @@ func newMemUniverse(rng *RNG, large bool) *memUniverse {
 	docker := add("docker-child", "application/vnd.docker.distribution.manifest.v2+json", []byte(`{"schemaVersion":2,"mediaType":"application/vnd.docker.distribution.manifest.v2+json"}`))
 	opq := memManifest{"opaque", mtOpaque, []byte("not json at all")}
 	add("i-foreign", idx, ocispec.Index{MediaType: idx, Manifests: []ocispec.Descriptor{md(docker), md(m1), md(opq)}})
+	// media types with a parameter, or with upper-case letters: carried verbatim
+	add("opaque-param", "application/vnd.example.thing.v1+json; version=2", []byte(`{"thing":1}`))
+	add("opaque-upper", "application/vnd.Example.Thing.v1+json", []byte(`{"thing":2}`))
+	add("img-param", img+";x=y", m1.data) // not the OCI image manifest type: opaque to the registry
 	// a valid document followed by something else is not a valid document
 	add("m1-trailing", img, append(append([]byte{}, m1.data...), []byte("}garbage")...))
 	add("m1-twice", img, append(append([]byte{}, m1.data...), m1.data...))
